@@ -168,7 +168,7 @@ package fpgo
 //@   ensures closed: handlerSelf.isClosed && tr_len == old(tr_len)+1 && tr_kind[old(tr_len)] == 6 && tr_obj[old(tr_len)] == handlerSelf.ch
 
 //@ func ActorNewByOptionsGenerics
-//@   prop C12
+//@   prop C12,C13
 //@   opt callbacks=effectful
 //@   opt effects=trace
 //@   ensures one-consumer: tr_len == old(tr_len)+1 && tr_kind[old(tr_len)] == 4
@@ -176,7 +176,7 @@ package fpgo
 
 // the actor's consumer loop: one synchronous call of the effect per message, with the actor itself as first argument
 //@ func (ActorDef).run
-//@   prop C12
+//@   prop C12,C13
 //@   opt callbacks=effectful
 //@   opt effects=trace
 //@   requires actorSelf != nil && actorSelf.effect != nil
@@ -185,7 +185,7 @@ package fpgo
 //@   invariant serial: tr_len == old(tr_len) + _i && forall(k, 0, _i, tr_kind[old(tr_len)+k] == 1 && tr_fn[old(tr_len)+k] == actorSelf.effect && tr_arg[old(tr_len)+k] == boxed(actorSelf))
 
 //@ func (ActorDef).Send
-//@   prop C12
+//@   prop C12,C13
 //@   opt callbacks=effectful
 //@   opt effects=trace
 //@   requires actorSelf != nil
@@ -193,7 +193,7 @@ package fpgo
 //@   ensures open: !old(actorSelf.isClosed) ==> tr_len == old(tr_len)+1 && tr_kind[old(tr_len)] == 5 && tr_obj[old(tr_len)] == actorSelf.ch && tr_arg[old(tr_len)] == message
 
 //@ func (ActorDef).Close
-//@   prop C12
+//@   prop C12,C13
 //@   opt callbacks=effectful
 //@   opt effects=trace
 //@   modifies actorSelf
@@ -201,7 +201,7 @@ package fpgo
 //@   ensures closed: actorSelf.isClosed && tr_len == old(tr_len)+1 && tr_kind[old(tr_len)] == 6 && tr_obj[old(tr_len)] == actorSelf.ch
 
 //@ func (ActorDef).IsClosed
-//@   prop C12
+//@   prop C12,C13
 //@   requires actorSelf != nil
 //@   ensures def: r0 == actorSelf.isClosed
 //@ func (ActorDef).GetParent
@@ -250,12 +250,30 @@ package fpgo
 //@   opt lockguard=subscribers:subscribeM
 //@   modifies publisherSelf
 //@   decreases len(publisherSelf.subscribers)
+//@   opt recursive-ghosts=local
+//@   ghost idx (Array Int Int)
+//@   ghost cut Int
+//@   ghostinit cut = 0
+//@   ghostset idx = lami(j, j)
+//@   ghostset idx = lami(j, ite(Unsubscribe_idx[j] < cut, Unsubscribe_idx[j], Unsubscribe_idx[j] + 1))
+//@   ghost inv (Array Int Int)
+//@   ghostset inv = lami(k, k)
+//@   ghostset inv = lami(k, Unsubscribe_inv[ite(k < cut, k, k - 1)])
 //@   requires publisherSelf != nil && PUB_WF(publisherSelf)
+//@   hint cut-range: isAnyMatching ==> 0 <= cut && cut < old(len(publisherSelf.subscribers))
+//@   hint cut-is-s: isAnyMatching ==> old(publisherSelf.subscribers)[cut] == s
+//@   hint one-shorter: isAnyMatching ==> len(remaining) == old(len(publisherSelf.subscribers)) - 1
+//@   hint intermediate-list: isAnyMatching ==> forall(m, 0, len(remaining), remaining[m] == old(publisherSelf.subscribers)[ite(m < cut, m, m + 1)])
+//@   hint recursive-result: isAnyMatching ==> forall(j, 0, len(publisherSelf.subscribers), 0 <= Unsubscribe_idx[j] && Unsubscribe_idx[j] < len(remaining) && publisherSelf.subscribers[j] == remaining[Unsubscribe_idx[j]])
+//@   ensures kept-in-order: forall(j, 0, len(publisherSelf.subscribers), 0 <= idx[j] && idx[j] < old(len(publisherSelf.subscribers)) && publisherSelf.subscribers[j] == old(publisherSelf.subscribers)[idx[j]]) && forall2(j, 0, len(publisherSelf.subscribers), k, 0, len(publisherSelf.subscribers), j < k ==> idx[j] < idx[k])
+//@   ensures only-s-removed: forall(k, 0, old(len(publisherSelf.subscribers)), old(publisherSelf.subscribers)[k] != s ==> 0 <= inv[k] && inv[k] < len(publisherSelf.subscribers) && idx[inv[k]] == k)
 //@   ensures gone: forall(j, 0, len(publisherSelf.subscribers), publisherSelf.subscribers[j] != s)
 //@   ensures shorter: len(publisherSelf.subscribers) <= old(len(publisherSelf.subscribers))
 //@   ensures old-cells: forall(i, 0, old(len(publisherSelf.subscribers)), old(publisherSelf.subscribers)[i] == old(publisherSelf.subscribers[i]))
 //@   ensures wf: PUB_WF(publisherSelf)
 //@ func (PublisherDef).Unsubscribe loop 0
+//@   ghostset cut = _i + 1
+//@   invariant first-match-position: cut == _i
 //@   invariant searching: !isAnyMatching && subscribers == old(publisherSelf.subscribers) && publisherSelf.subscribers == old(publisherSelf.subscribers) && forall(k, 0, _i, subscribers[k] != s)
 
 // Publish: the snapshot S taken under the lock is delivered to, one event per subscriber with an OnNext, in order:
@@ -371,7 +389,7 @@ package fpgo
 //@   ensures own-channel: r0 != nil && fresh(r0) && r0.ch != nil && fresh(r0.ch) && chancap(r0.ch) >= 1 && r0.Message == message
 
 //@ func (AskDef).AskChannel
-//@   prop C13
+//@   prop C12,C13
 //@   opt callbacks=effectful
 //@   opt effects=trace
 //@   opt dispatch=ActorHandle:off
@@ -387,7 +405,7 @@ package fpgo
 //@   ensures one-reply-on-own-channel: tr_len == old(tr_len)+1 && tr_kind[old(tr_len)] == 5 && tr_obj[old(tr_len)] == askSelf.ch && tr_arg[old(tr_len)] == response
 
 //@ func (AskDef).AskOnce
-//@   prop C13
+//@   prop C12,C13
 //@   opt callbacks=effectful
 //@   opt effects=trace
 //@   opt dispatch=ActorHandle:off
@@ -397,7 +415,7 @@ package fpgo
 //@   ensures closed-after-the-answer: tr_kind[old(tr_len)+2] == 6 && tr_obj[old(tr_len)+2] == askSelf.ch
 
 //@ func (AskDef).AskOnceWithTimeout
-//@   prop C13
+//@   prop C12,C13
 //@   opt callbacks=effectful
 //@   opt effects=trace
 //@   opt dispatch=ActorHandle:off
